@@ -26,7 +26,9 @@ var c10Defs = []struct {
 	{"+proj=merc +a=6378137 +b=6378137 +lat_ts=0.0 +lon_0=0.0 +x_0=0.0 +y_0=0 +k=1.0 +units=m +nadgrids=@null +no_defs", "EPSG:3857"},
 	{"+proj=utm +zone=15 +datum=WGS84 +units=m +no_defs", ""},
 	{"+proj=lcc +lat_1=33 +lat_2=45 +lat_0=40 +lon_0=-97 +x_0=0 +y_0=0 +ellps=clrk66 +R_A +towgs84=-8,160,176 +units=m +no_defs", ""}, // (+R_A: the semi-major axis is reduced while the constants are derived - once)
-	{"+proj=tmerc +lat_0=0 +lon_0=-93 +k=0.9996 +x_0=500000 +y_0=0 +ellps=bessel +towgs84=598.1,73.7,418.2,0.202,0.045,-2.455,6.7 +units=m +no_defs", ""},
+	// (a Krovak definition that does not name the Bessel ellipsoid: the projection's set-up writes Bessel's semi-major axis into
+	// the shared reference during its first use)
+	{"+proj=krovak +lat_0=49.5 +lon_0=24.83333333333333 +alpha=30.28813972222222 +k=0.9999 +x_0=0 +y_0=0 +ellps=WGS84 +towgs84=598.1,73.7,418.2,0.202,0.045,-2.455,6.7 +units=m +no_defs", ""},
 	{"+proj=longlat +datum=WGS84 +axis=wnu +no_defs", ""},
 	{"+proj=longlat +ellps=intl +towgs84=-87,-98,-121 +no_defs", ""},
 	// a definition whose projection set-up fails (standard parallels symmetric about the equator): every call of a
